@@ -196,7 +196,7 @@ def run(v, tier, seed):
             prev = st[-2]["st"]
             return any(t[0][:2] == ["hA", "s1"] and len(t[0]) > 2 for t in prev["tree"]) or any(p[0] == "s1" for p in prev["psub"])
         cand = [r for r in rows if rich(r)]
-        ncut = min(len(cand), 12 if quick else 240)
+        ncut = min(len(cand), 12 if quick else 600)
         cuts = [dict(r, cuts="all") for r in rnd.sample(cand, ncut)]
         # the directed history (the design-phase dry run's): subscribe, nested set, ordered insert, remove, set - its end state is the initial state minus s1
         dep = [r for r in rows if len(r["steps"]) == 1 and r["steps"][0]["a"] == "Depart" and r["steps"][0]["who"] == "s1"]
@@ -217,7 +217,7 @@ def run(v, tier, seed):
         f_bad = ex.submit(replay, [bad], "selftest")
 
         mf, nmenu = f_menu.result()
-        nh, ns = (60, 20) if quick else (400, 40)
+        nh, ns = (60, 20) if quick else (1000, 40)
         f_rand = [ex.submit(random_histories, mf, nh, ns, k) for k in range(nshard)]
 
         # ---- collect
